@@ -8,6 +8,58 @@ from exprgen import ExprGen
 PROP = "C01"
 
 
+def sweep_nary(eg, mixed):
+    """Systematic part of the n-ary calling convention (monoidal / rigid / mixed): receiver kind
+    (identity, empty diagram from the constructor, box, grown diagram, empty slice) x number of
+    arguments 0..4 x position of the one broken junction (none, or any of them — the one between
+    the receiver and the first argument included) x calling form."""
+    r, g = eg.rng, eg.g
+    out = []
+    for recv_kind in ("id", "mk_empty", "box", "grown", "slice_empty"):
+        for n in range(5):
+            for bad_at in [-1] + list(range(n)):
+                forms = ["method", "class", "base"] + (["op", "rop"] if n == 1 else [])
+                for form in forms:
+                    t = g.ty(0, 3)
+                    if recv_kind == "id":
+                        recv, rc = ("id", t), t
+                    elif recv_kind == "mk_empty":
+                        recv, rc = ("mk", t, t, [], []), t
+                    elif recv_kind == "box":
+                        b = g.gbox(t)
+                        recv, rc = ("box", b), b["cod"]
+                    elif recv_kind == "grown":
+                        recv, scans = g.diagram(t, depth=r.randint(1, 3))
+                        rc = scans[-1]
+                    else:
+                        e0, scans = g.diagram(t, depth=r.randint(1, 3))
+                        k = r.randint(0, len(e0[3]))
+                        recv, rc = ("slice", e0, k, k), scans[k]
+                    args, scan = [], rc
+                    for k in range(n):
+                        start = scan
+                        if k == bad_at:
+                            if mixed and any(z for _, z in scan) and r.random() < 0.6:
+                                start = [(nm, 0) for nm, _ in scan]
+                            else:
+                                start = eg.other_ty(scan)
+                        if r.random() < 0.2:
+                            a, scan = ("id", start), start
+                        else:
+                            a, scans = g.diagram(start, depth=r.randint(1, 2))
+                            scan = scans[-1]
+                        args.append(a)
+                    out.append((("thenN", form, recv, args), "thenN:%s:n=%d:%s" % (
+                        recv_kind, n, "ok" if bad_at < 0 else "bad@%d" % bad_at)))
+    for n in range(5):
+        for form in ["method", "class", "base"] + (["op"] if n == 1 else []):
+            recv = g.diagram(depth=r.randint(0, 2))[0] if r.random() < 0.7 else ("id", g.ty(0, 2))
+            args = [g.diagram(depth=r.randint(0, 2))[0] if r.random() < 0.8 else ("id", g.ty(0, 2))
+                    for _ in range(n)]
+            out.append((("tensorN", form, recv, args), "tensorN:n=%d" % n))
+    return out
+
+
 def install_constructor_monitor(sink):
     """In-process equivalent of the optional hook named in the property's anchor: re-scan
     every diagram the library builds (also intermediate ones) after its constructor returns."""
@@ -31,6 +83,132 @@ def install_constructor_monitor(sink):
     return state, (lambda: setattr(monoidal.Diagram, "__init__", orig))
 
 
+def functor_stream(rep, drv, rng, tier, fams, monitor_hits):
+    """monoidal / rigid functors whose object and arrow mappings are made to DISAGREE (image of a
+    box not typed F(dom) -> F(cod), object mapping changed after the images were drawn, images
+    exchanged), as dict and as callable; and cat.Functor into diagrams (ar_factory=Diagram) on plain
+    arrows, which composes the images with the n-ary Diagram.id(F(dom)).then(*images).
+    Model: driver commands `functor` (Model/Functor.lean) and `eval thenN ...`; oracle: the image
+    is well-typed and starts on the image of the domain."""
+    from props.c04 import gen_functor, tok_functor, real_functor, img_ty
+    from core import Gen, tok_ty
+    from common import ty_key
+    n = 120 if tier == "quick" else 4000
+    kinds = ["consistent", "img_dom", "img_cod", "ob_changed", "swap_images"]
+    pending = []
+    for k in range(n):
+        famn = "rigid" if k % 2 else "monoidal"
+        fam = fams[famn]
+        r = random.Random(rng.getrandbits(64))
+        g = Gen(r, rigid=(famn == "rigid"), maxw=5)
+        kind = kinds[(k // 2) % len(kinds)]
+        style = ("dict", "callable", "total")[(k // 10) % 3]
+        via_cat = k % 7 == 6         # a plain arrow of one-wire boxes, cat.Functor into diagrams
+        if via_cat:
+            g0 = Gen(r, rigid=False)        # cat.Ob has no winding number
+            a = g0.ob()
+            bs, scan = [], [a]
+            for _ in range(r.randint(1, 4)):
+                b = g0.gbox(scan, [g0.ob()])
+                bs.append(b)
+                scan = b["cod"]
+            e = ("mk", [a], scan, bs, [0] * len(bs))
+        else:
+            e, scans = g.diagram(depth=r.choice([1, 2, 2, 3, 3, 4, 5]))
+        boxes = e[3]
+        obmap, armap = gen_functor(r, famn == "rigid", boxes, False)
+        gens = [i for i, (b, _) in enumerate(armap)]
+        tg = Gen(r, rigid=(famn == "rigid"), maxw=7, names=["p", "q", "r"])
+        if kind in ("img_dom", "img_cod") and gens:
+            i = r.choice(gens)
+            b, img = armap[i]
+            dom, cod = img_ty(obmap, b["dom"]), img_ty(obmap, b["cod"])
+            if kind == "img_dom":
+                dom = dom + tg.ty(1, 1) if r.random() < 0.5 or not dom else dom[1:]
+            else:
+                cod = cod + tg.ty(1, 1) if r.random() < 0.5 or not cod else cod[:-1]
+            e2, sc = tg.grow(dom, r.choice([0, 1, 2]))
+            _, _, cur, bs2, os2 = e2
+            if cur != cod:
+                bs2 = bs2 + [dict(kind="g", name="h9", dom=list(cur), cod=list(cod), dagger=False,
+                                  data=None)]
+                os2 = os2 + [0]
+            armap[i] = (b, ("mk", dom, cod, bs2, os2))
+        elif kind == "ob_changed":
+            name = r.choice(sorted(obmap))
+            obmap[name] = obmap[name] + tg.ty(1, 1) if r.random() < 0.6 or not obmap[name] \
+                else obmap[name][1:]
+        elif kind == "swap_images" and len(gens) >= 2:
+            i, j = r.sample(gens, 2)
+            armap[i], armap[j] = (armap[i][0], armap[j][1]), (armap[j][0], armap[i][1])
+        case = dict(family=famn, kind=kind, style=style, via="cat.Functor" if via_cat else
+                    famn + ".Functor", expr=repr(e), obmap=repr(obmap), armap=repr(armap)[:2000])
+        before = len(monitor_hits)
+        value = [None]
+        try:
+            if via_cat:
+                from discopy import cat
+                m = fam.m
+                ob = {cat.Ob(nm): fam.ty(t) for nm, t in obmap.items()}
+                ar = {cat.Box(b["name"], cat.Ob(b["dom"][0][0]), cat.Ob(b["cod"][0][0]),
+                              **({"data": b["data"]} if b["data"] is not None else {})):
+                      fam.run(img) for b, img in armap}
+                F = cat.Functor(ob, ar, ob_factory=m.Ty, ar_factory=m.Diagram) if style != "callable" \
+                    else cat.Functor(lambda x: ob[x], lambda f: ar[f], ob_factory=m.Ty,
+                                     ar_factory=m.Diagram)
+                d = cat.Arrow(cat.Ob(e[1][0][0]), cat.Ob(e[2][0][0]), [
+                    cat.Box(b["name"], cat.Ob(b["dom"][0][0]), cat.Ob(b["cod"][0][0]),
+                            **dict(({"data": b["data"]} if b["data"] is not None else {}),
+                                   **({"_dagger": True} if b["dagger"] else {}))) for b in boxes])
+                imgs = []
+                for b in boxes:
+                    base = dict(b, dom=b["cod"], cod=b["dom"], dagger=False) if b["dagger"] else b
+                    img = [t for bb, t in armap if tok_box_eq(bb, base)]
+                    imgs.append(("dagger " if b["dagger"] else "") + tok_expr(img[0]))
+                line = "eval thenN id %s %s" % (tok_ty(img_ty(obmap, e[1])),
+                                                " ".join([str(len(imgs))] + imgs))
+            else:
+                F = real_functor(fam, obmap, armap, style)
+                d = fam.run(e)
+                line = "functor %s %s" % (tok_functor(obmap, armap), tok_expr(e))
+        except Exception as exc:
+            rep.count("functor_setup_error:" + err_class(exc))
+            continue
+
+        def thunk():
+            value[0] = F(d)
+            return value[0]
+        real = ser_result(thunk)
+        rep.count("functor:%s:%s:%s" % ("cat" if via_cat else famn, kind,
+                                        real.split(" ")[0 if real.startswith("ok") else 1]))
+        rep.count("functor_style:" + style)
+        out = value[0]
+        if out is not None:
+            why = wf_failure(out)
+            if why:
+                rep.fail("illtyped_result:functor:" + famn, case, why)
+            want = [(nm, z) for nm, z in img_ty(obmap, e[1])]
+            if ty_key(out.dom) != want:
+                rep.fail("functor_image_leaves_image_of_dom:" + famn, case,
+                         "F(d) starts on %r but F(d.dom) is %r" % (out.dom, want))
+            if ty_key(out.cod) != [(nm, z) for nm, z in img_ty(obmap, e[2])]:
+                rep.count("functor:cod_is_not_image_of_cod")        # well-typed all the same
+        for why, what in monitor_hits[before:]:
+            rep.fail("illtyped_intermediate:functor", case, why + " in " + what)
+        pending.append((case, line, real, len(boxes) >= 2))
+    answers = drv.ask_many([p[1] for p in pending]) if pending else []
+    for (case, line, real, nontrivial), model in zip(pending, answers):
+        rep.case(line, nontrivial)
+        if real != model:
+            rep.disagree("functor", case, real[:500], model[:500])
+    return dict(functor_requests=len(pending))
+
+
+def tok_box_eq(a, b):
+    from core import tok_box
+    return tok_box(a) == tok_box(b)
+
+
 def run(tier, seed, replay=None):
     rep = Report(PROP, tier, seed)
     rep.rule = ("random operation sequences (1-12 ops) over monoidal and rigid diagrams grown "
@@ -41,7 +219,23 @@ def run(tier, seed, replay=None):
                 "battery (dagger, double dagger, >> / @ with its dagger, slices, reversed slices, "
                 "indexing, interchange sweep, normal_form, transposes, class extras) and random "
                 "histories over a pool of earlier results; non-trivial = result of >= 2 boxes that "
-                "is not a bare leaf; distinct by model request")
+                "is not a bare leaf; distinct by model request. "
+                "n-ary calling convention of then/tensor (0-4 arguments; bound method, function of "
+                "the receiver's class, function of the family's Diagram class, operators >> << @ for "
+                "one argument): random inside the operation sequences and a systematic sweep "
+                "receiver kind (identity, empty constructor diagram, box, grown diagram, empty "
+                "slice) x arity x position of the one broken junction (none / any, the one between "
+                "the receiver and the first argument included) x form, in the monoidal, rigid, mixed "
+                "and semantic families. Class cat: plain arrows over cat.Ob and over monoidal.Ty "
+                "objects - scanning constructor broken at every position, n-ary then in method / "
+                "unbound / class / >> / << form with the same sweep, dagger, slices, reversed "
+                "slices, indexing, Id / Arrow.id / Arrow(x, x, []) - and cat.Functor application "
+                "(dict, callable, Quiver) with mappings made to disagree: image with another dom / "
+                "cod, object mapping changed after the images were drawn, images exchanged, missing "
+                "keys; x shape of the argument (identity, one-box arrow, Box, composite, daggered, "
+                "composite by then, image of another functor). monoidal / rigid Functor and "
+                "cat.Functor(ar_factory=Diagram) with the same disagreements; non-trivial there = "
+                "value of >= 2 boxes from a request of >= 2 operations")
     rep.partial = ["parser/translator outputs (eager_parse, from_tk, from_pyzx, circuit2zx, "
                    "tree2diagram) are covered by C13/C16/C17/C18 and the constructor monitor only",
                    "class-specific constructions of the semantic classes (Circuit/zx/tensor cups, "
@@ -50,10 +244,22 @@ def run(tier, seed, replay=None):
                    "which is then handed to the model as an `mk` leaf; boxes of these classes are "
                    "opaque generators for the model (dom/cod only), so the correspondence there is "
                    "on dom, cod, box types, offsets and layers, not on box identity",
-                   "plain cat.Arrow (class cat) is oracle-only; the model's arrows are the layer "
-                   "arrows of diagrams"]
+                   "class cat: sums and bubbles of plain arrows (Functor dispatch on Sum / Bubble, "
+                   "cat.py:854-859) are not in the cat op language (C02 / C04 cover sums); a functor "
+                   "whose LAST image does not end on F(cod) is accepted by the code as written "
+                   "(cat.py:867 never reads F(cod); monoidal.py:842-848 likewise): the value handed "
+                   "back is well-typed, so C01 holds for it - counted as "
+                   "`cod_is_not_image_of_cod`, proved conditional on typed images "
+                   "(cat_functor_typed), not demanded by the oracle",
+                   "images of a functor are well-typed arrows the library built earlier "
+                   "(hypothesis ImagesWF of cat_functor_wf / cat_eval_wf; the harness re-checks "
+                   "every image with C01's predicate)"]
     rep.assumptions = ["box names/data are generator-chosen tokens (no names that collide with "
                        "the derived names of Swap/Cup/Cap)",
+                       "cat.Box data is never a str: Box(name, x, y, data='s') does not return "
+                       "(cat.py:515 recursive_free_symbols iterates a string for ever -> "
+                       "RecursionError), which is a refusal and not C01's business",
+                       "a KeyError of a functor mapping is the model's error class `value`",
                        "a refusal (exception) is never counted against C01; refusals of modelled "
                        "operations are compared with the model's refusals except where a box class "
                        "has no dagger (tensor.Bubble, cartesian.Box, biclosed rule boxes), for "
@@ -70,16 +276,26 @@ def run(tier, seed, replay=None):
         for k in range(n_cases):
             fam = ("monoidal", "rigid", "mixed", "rigid")[k % 4]
             eg = ExprGen(random.Random(rng.getrandbits(64)), rigid=(fam != "monoidal"),
-                         mixed=(fam == "mixed"))
+                         mixed=(fam == "mixed"), nary=True)
             if (k // 4) % 8 == 7:
                 e = eg.malformed_mk()[0]
             else:
                 e = eg.expr(eg.rng.randint(1, 4))[0]
             cases.append((fam, e))
+        # the n-ary calling convention, systematically: every receiver kind x arity x position of
+        # the broken junction x calling form
+        for rnd in range(1 if tier == "quick" else 8):
+            for fam in ("monoidal", "rigid", "mixed"):
+                eg = ExprGen(random.Random(rng.getrandbits(64)), rigid=(fam != "monoidal"),
+                             mixed=(fam == "mixed"), maxw=5)
+                for e, label in sweep_nary(eg, fam == "mixed"):
+                    cases.append((fam, e))
+                    rep.count("nary_sweep:" + ":".join(label.split(":")[:2]))
         fams = {"monoidal": Family("monoidal"), "rigid": Family("rigid"), "mixed": Family("mixed")}
         aging = Aging()
         for f in fams.values():
             f.watch = aging.watch
+            f.problems = []
         lines = ["eval " + tok_expr(e) for _, e in cases]
         answers = drv.ask_many(lines)
         for (fam, e), line, model in zip(cases, lines, answers):
@@ -109,11 +325,18 @@ def run(tier, seed, replay=None):
             for why, what in monitor_hits[before:]:
                 rep.fail("illtyped_intermediate:" + ops[0], dict(family=fam, expr=repr(e)),
                          why + " in " + what)
+            for sig, text in fams[fam].problems:      # "ill-typed requests are refused"
+                rep.fail(sig + ":" + fam, dict(family=fam, expr=repr(e)), text[:1500])
+            del fams[fam].problems[:]
+            for o in ops:
+                if o in ("thenN", "tensorN"):
+                    rep.count("nary:%s:%s" % (o, real.split(" ")[0 if real.startswith("ok") else 1]))
             # histories: every sub-result of this operation sequence, re-read now
             for what, why in aging.recheck():
                 rep.fail("earlier_value_spoilt:" + what, dict(family=fam, expr=repr(e)), why)
         for f in fams.values():
             f.watch = None
+            f.problems = None
         # ---- histories through the rewriting generators: the input, and every step yielded
         # earlier, are re-read after the generator has moved on / finished
         from props import c07 as g07
@@ -302,6 +525,13 @@ def run(tier, seed, replay=None):
         # correspondence by shape, C01's predicate on every value handed back
         import semfam
         rep.extra.update(semfam.run_streams(rep, drv, rng, tier, monitor_hits))
+        # ---- class `cat` as a full family: plain arrows (constructor, n-ary then in every calling
+        # form with 0-4 arguments, dagger, slices, indexing) and functors whose two mappings are
+        # made to disagree; model correspondence (`cateval`) + C01's predicate on every sub-result
+        import catfam
+        rep.extra.update(catfam.run_streams(rep, drv, random.Random(rng.getrandbits(64)), tier))
+        rep.extra.update(functor_stream(rep, drv, random.Random(rng.getrandbits(64)), tier, fams,
+                                        monitor_hits))
     finally:
         uninstall()
         drv.close()
